@@ -120,6 +120,9 @@ func Round(x float64, prec int) float64 {
 	if prec >= 0 && x == math.Trunc(x) {
 		return x
 	}
+	if math.IsInf(x, 0) {
+		return x
+	}
 	pow := math.Pow10(prec)
 	intermed := x * pow
 	if math.IsInf(intermed, 0) {
@@ -149,6 +152,9 @@ func RoundEven(x float64, prec int) float64 {
 	}
 	// Fast path for positive precision on integers.
 	if prec >= 0 && x == math.Trunc(x) {
+		return x
+	}
+	if math.IsInf(x, 0) {
 		return x
 	}
 	pow := math.Pow10(prec)
